@@ -11,15 +11,15 @@ pub enum AddressType {
 }
 
 impl AddressType {
-    pub fn new(byte: u8) -> Self {
+    pub fn new(byte: u8) -> anyhow::Result<Self> {
         if Self::Ipv4 as u8 == byte {
-            Self::Ipv4
+            Ok(Self::Ipv4)
         } else if Self::Domain as u8 == byte {
-            Self::Domain
+            Ok(Self::Domain)
         } else if Self::Ipv6 as u8 == byte {
-            Self::Ipv6
+            Ok(Self::Ipv6)
         } else {
-            panic!("unsupported address type: {}", byte);
+            anyhow::bail!("unsupported address type: {}", byte);
         }
     }
 }
